@@ -210,6 +210,7 @@ func (p *PacketConn) SetDeadline(t time.Time) error {
 // SetReadDeadline is faithful: a deadline in the past fails pending and future reads with a
 // timeout net.Error. The event is logged after the deadline is in effect.
 func (p *PacketConn) SetReadDeadline(t time.Time) error {
+	p.point("setReadDeadline.enter(" + pastFutureZero(t) + ")") // before the effect, see Conn.SetReadDeadline
 	p.mu.Lock()
 	if p.closed {
 		p.mu.Unlock()
